@@ -54,6 +54,121 @@ func ToExpr(p jpref.Path) jp.Expr {
 	return x
 }
 
+// ToExprAPI builds the same expression through jp's builder functions: the package-level starter for the first
+// fragment (jp.R, jp.A, jp.C, jp.N, jp.W, jp.D, jp.U, jp.S, jp.F) and the methods for the rest, the one-letter
+// ones when long is false and the spelled-out ones otherwise.
+func ToExprAPI(p jpref.Path, long bool) jp.Expr {
+	var x jp.Expr
+	for i, f := range p {
+		first := i == 0
+		switch f.Kind {
+		case "root":
+			switch {
+			case first:
+				x = jp.R()
+			case long:
+				x = x.Root()
+			default:
+				x = x.R()
+			}
+		case "at":
+			switch {
+			case first:
+				x = jp.A()
+			case long:
+				x = x.At()
+			default:
+				x = x.A()
+			}
+		case "child":
+			switch {
+			case first:
+				x = jp.C(f.Key)
+			case long:
+				x = x.Child(f.Key)
+			default:
+				x = x.C(f.Key)
+			}
+		case "nth":
+			switch {
+			case first:
+				x = jp.N(f.N)
+			case long:
+				x = x.Nth(f.N)
+			default:
+				x = x.N(f.N)
+			}
+		case "wild":
+			switch {
+			case first:
+				x = jp.W()
+			case long:
+				x = x.Wildcard()
+			default:
+				x = x.W()
+			}
+		case "descent":
+			switch {
+			case first:
+				x = jp.D()
+			case long:
+				x = x.Descent()
+			default:
+				x = x.D()
+			}
+		case "union":
+			var u []any
+			for _, e := range f.Union {
+				switch t := e.(type) {
+				case string:
+					u = append(u, t)
+				case int:
+					if long {
+						u = append(u, int64(t))
+					} else {
+						u = append(u, t)
+					}
+				case float64:
+					u = append(u, int64(t))
+				}
+			}
+			switch {
+			case first:
+				x = jp.U(u...)
+			case long:
+				x = x.Union(u...)
+			default:
+				x = x.U(u...)
+			}
+		case "slice":
+			if len(f.Slice) == 0 {
+				x = append(x, jp.Slice{}) // the builders need a start
+				continue
+			}
+			switch {
+			case first:
+				x = jp.S(f.Slice[0], f.Slice[1:]...)
+			case long:
+				x = x.Slice(f.Slice[0], f.Slice[1:]...)
+			default:
+				x = x.S(f.Slice[0], f.Slice[1:]...)
+			}
+		case "filter":
+			switch {
+			case first:
+				x = jp.F(ToEquation(f.Filter))
+			case long:
+				x = x.Filter(ToEquation(f.Filter))
+			default:
+				x = x.F(ToEquation(f.Filter))
+			}
+		default:
+			panic("jpspec: unknown fragment kind " + f.Kind)
+		}
+	}
+	return x
+}
+
 // ToEquation builds a *jp.Equation through the public constructors.
 func ToEquation(e *jpref.Eq) *jp.Equation {
 	switch e.Op {
